@@ -131,6 +131,19 @@ CLAIMED["C18"] = {
     "design": "5 C18",
 }
 
+CLAIMED["C14"] = {
+    "text": "Engines.tla models engines created at addresses, the per-thread storage maps with their key (address or process-unique id) "
+            "and the destructor that erases only the destroying thread's entry; TLC checks Isolated (every thread sees in every live "
+            "engine exactly what was declared there) over all histories of <= 6 (8 thorough) operations on 3 engine ids x 2 addresses x 3 "
+            "threads, and refutes keying by address. Seeded histories with expectations computed by TLC are replayed by a director that "
+            "placement-constructs engines in a fixed arena (so 'same address' is controlled) and runs operations on the main thread and "
+            "two long-lived workers; after every step every (live engine, thread, name) and a per-engine function are probed.",
+    "note": "Types, conversions and used-file records are per-engine members and are not probed separately; address reuse is produced "
+            "with placement new only (the stack/heap variants reduce to it).",
+    "technique": "TLA+ model checking (TLC) + replay of TLC-computed expectations by a multi-threaded director at controlled addresses",
+    "design": "5 C14",
+}
+
 PENDING_REASON = "check not built yet in this session; planned (see DESIGN.md section 8)"
 
 ALL = [f"C{i:02d}" for i in range(1, 21)]
